@@ -4,6 +4,7 @@ import (
 	"bytes"
 	"encoding/json"
 	"io"
+	"strconv"
 )
 
 func bytesReader(b []byte) io.Reader { return bytes.NewReader(b) }
@@ -35,3 +36,22 @@ func asStr(v interface{}) string {
 	s, _ := v.(string)
 	return s
 }
+
+func sortedKeys(m map[string]interface{}) []string {
+	keys := make([]string, 0, len(m))
+	for k := range m {
+		keys = append(keys, k)
+	}
+	sortStrings(keys)
+	return keys
+}
+
+func sortStrings(a []string) {
+	for i := 1; i < len(a); i++ {
+		for j := i; j > 0 && a[j] < a[j-1]; j-- {
+			a[j], a[j-1] = a[j-1], a[j]
+		}
+	}
+}
+
+func strconvUnquote(s string) (string, error) { return strconv.Unquote(s) }
